@@ -325,13 +325,29 @@ def render_v2(doc):
             types.append(rng.choice(["x509_pem"] * 4 + ["sgx_attestation_key"]))
         else:
             types.append(rng.choice(["sgx_quote"] * 3 + ["sgx_attestation_key"] * 3 + ["x509_pem"] * 2))
-    els, meta = [], []
+    els, meta, extra_els = [], [], []
     for j, it in enumerate(items):
         by = it["by"]
         rby = "sgx_root" if by == "root" else pmap[by] if by in pmap else ghost_value(rng, "root", it.get("ghostv"))
         # `signed_by: sgx_root` is signed by the root of trust, also when an element has that name
         pkey = root_key if by == "root" else keys[last[by]] if by in last else stranger
         nm = pmap.get(it["name"], rng.choice(names))
+        st = it.get("stretch")
+        if st and by in pmap and by != "root":
+            # the edge item -> certifier stands for a run of st["len"] further x509 elements
+            run_key = _p256(rng)
+            rn = ["run%05d" % i for i in range(st["len"])]
+            first = _x509(run_key, pkey, rn[0], rby, rng)
+            same = _x509(run_key, run_key, "run", "run", rng)
+            wrong = _x509(run_key, stranger, "run", "run", rng)
+            badat = {"top": min(1, st["len"] - 1), "middle": st["len"] // 2, "bottom": st["len"] - 1}.get(st.get("pos"), -1) \
+                if st["cls"] == "bad" else -1
+            for i, r in enumerate(rn):
+                der = wrong if i == badat else first if i == 0 else same
+                sb = (nm if st["cls"] == "cycle" else rby) if i == 0 else rn[i - 1]
+                extra_els.append(Obj([("name", r), ("type", "x509_pem"), ("message", base64.b64encode(der).decode()),
+                                      ("signed_by", sb)]))
+            rby, pkey = rn[-1], run_key
         fld, typ, ok = it["fld"], types[j], it["ok"]
         bad = "" if ok else rng.choice(["sig", "key", "bind"])
         skey = stranger if bad == "key" else pkey
@@ -459,13 +475,65 @@ def render_v2(doc):
     rootnamed = any(it["name"] == "root" for it in items)
     target_names = [pmap[t] if t in pmap else ghost_value(rng, "root" if rootnamed else "sgx_root")
                     for t in doc["targets"]]
+    if extra_els:
+        k = rng.randrange(len(els) + 1)
+        els = els[:k] + extra_els + els[k:]
+        meta = meta[:k] + ["x509_pem"] * len(extra_els) + meta[k:]
     text = _top(doc, rng, 2, 1, target_names, els)
     root_der = _x509(root_key, root_key, "sgx_root", "sgx_root", rng)
     return {"text": text, "root": base64.b64encode(root_der).decode(), "pmap": pmap, "sub": meta,
-            "names": [pmap.get(it["name"], "") for it in items]}
+            "names": [(dict(o).get("name") if isinstance(o, Obj) and isinstance(dict(o).get("name"), str) else "")
+                      for o in els]}
+
+
+SCALE_LENGTHS = (5, 50, 255, 256, 257, 300, 999, 1000, 1001, 1500, 3000)
+
+
+def render_scale(doc):
+    """A version-2 document whose single target path has doc["scale"]["len"] elements: a quote under a chain
+    of x509_pem elements up to sgx_root.  Built iteratively; one self-signed certificate serves for every
+    element of the chain (each then verifies against the one above it), another one marks the bad link.
+        scale = {"len": L, "bad": None | "top" | "middle" | "bottom", "cycle": bool}"""
+    rng = random.Random(doc["seed"])
+    sc = doc["scale"]
+    n = sc["len"] - 1                               # x509 elements above the quote
+    key, other = _p256(rng), _p256(rng)
+    good = base64.b64encode(_x509(key, key, "ca", "ca", rng)).decode()
+    wrong = base64.b64encode(_x509(other, other, "ca", "ca", rng)).decode()
+    names = ["ca%05d" % i for i in range(n)]        # ca00000 is the topmost
+    badat = {"top": min(1, n - 1), "middle": n // 2, "bottom": n - 1}.get(sc.get("bad"), -1)
+    els = []
+    for i, nm in enumerate(names):
+        sb = "sgx_root" if i == 0 else names[i - 1]
+        if i == 0 and sc.get("cycle"):
+            sb = names[-1]
+        els.append({"name": nm, "type": "x509_pem", "message": wrong if i == badat else good, "signed_by": sb})
+    custom = bytes(rng.randrange(256) for _ in range(32))
+    msg = bytes(rng.randrange(256) for _ in range(QUOTE_HEADER_LEN)) + _report_body(rng, hashlib.sha256(custom).digest())
+    els.append({"name": "quote", "type": "sgx_quote", "message": msg.hex(), "custom_data": custom.hex(),
+                "signature": _sign(key, msg).hex(), "signed_by": names[-1] if names else "sgx_root"})
+    rng.shuffle(els)
+    targets = ["quote"]
+    if badat >= 0 and badat + 1 < n:
+        targets.append(names[badat + 1])            # an x509 target below the bad link (never valid)
+    text = json.dumps({"version": 2, "targets": targets, "elements": els})
+    return {"text": text, "root": good, "pmap": {}, "sub": ["path of %d elements" % sc["len"]], "names": []}
+
+
+def scale_docs(rng, lengths=SCALE_LENGTHS, variants=("ok", "top", "middle", "bottom", "cycle")):
+    docs = []
+    for n in lengths:
+        for v in variants:
+            docs.append({"flavour": "v2", "seed": rng.randrange(1 << 62), "ver": "ok", "tgtc": "list", "elsc": "list",
+                         "targets": [], "items": [], "src": "scale",
+                         "scale": {"len": n, "bad": v if v in ("top", "middle", "bottom") else None,
+                                   "cycle": v == "cycle"}})
+    return docs
 
 
 def render(doc):
+    if doc.get("scale"):
+        return render_scale(doc)
     return render_v1(doc) if doc["flavour"] == "v1" else render_v2(doc)
 
 
@@ -480,6 +548,10 @@ def docs_from_behaviour(b, rng):
     random content) and return its renderable documents: both flavours unless the behaviour contains a
     flavour-specific defect."""
     flavours = ["v1", "v2"] if b["flavour"] == "any" else [b["flavour"]]
+    st = b.get("stretch") or {"edge": 0, "cls": "?"}
+    if st["cls"] in ("ok", "bad", "cycle"):
+        # a long run of elements needs many names: only a version-2 document can have it
+        flavours = [f for f in flavours if f == "v2"]
     docs = []
     for fl in flavours:
         pool = POOL[:4] + ["root"]          # the model's pool: four names and the reserved root name
@@ -490,6 +562,9 @@ def docs_from_behaviour(b, rng):
             items.append({"name": it["name"], "fld": it["fld"],
                           "by": by if by != "?" else rng.choice(pool + ["root", "ghost"]),
                           "ok": (ok == "t") if ok != "?" else rng.random() < 0.6})
+            if st["edge"] == j + 1 and st["cls"] in ("ok", "bad", "cycle"):
+                items[-1]["stretch"] = {"cls": st["cls"], "len": rng.choice([5, 50, 120, 300]),
+                                        "pos": rng.choice(["top", "middle", "bottom"])}
         defect = b["phase"] == "error" and items and (items[-1]["name"] not in pool or items[-1]["fld"] not in LOADABLE
                                                       or b["ver"] == "swapped")
         if defect or b["elsc"] in ("?",):
